@@ -165,6 +165,92 @@ def import_chain_cases(acc, probe, rng, count):
         acc.cover("import_chain_shapes", "%s/alias=%s/levels=%d" % (info["how"], bool(info["alias"]), info["levels"]))
 
 
+def nested_loop_cases(acc, probe, rng, count):
+    """Loops whose repeat count depends on the `index` of the loop around them, and bodies that use both indices: compared with
+    the body written out (index replaced by its value in every iteration, innermost loop first)."""
+    def body(rng, depth):
+        lines = []
+        for _ in range(rng.randrange(1, 4)):
+            lines.append(rng.choice(["lda #index", ".byte index", ".byte index + %d" % rng.randrange(1, 9), "ldx #index * 2", ".word $400 + index", "nop"]))
+        return lines
+
+    def expand_loop(count_expr, lines, outer_index):
+        """lines: list of str or ("loop", count_expr, lines). Returns the flat lines with `index` substituted."""
+        n = eval(count_expr.replace("index", str(outer_index)) if outer_index is not None else count_expr)
+        out = []
+        for i in range(max(0, n)):
+            for ln in lines:
+                if isinstance(ln, tuple):
+                    out.extend(expand_loop(ln[1], ln[2], i))
+                else:
+                    out.append(re.sub(r"\bindex\b", "(%d)" % i, ln))
+        return out
+
+    def render(count_expr, lines, ind=""):
+        out = [ind + ".loop %s {" % count_expr]
+        for ln in lines:
+            if isinstance(ln, tuple):
+                out.extend(render(ln[1], ln[2], ind + "    "))
+            else:
+                out.append(ind + "    " + ln)
+        out.append(ind + "}")
+        return out
+
+    for _ in range(count):
+        inner_count = rng.choice(["index + 1", "index", "3 - index", "index * 2", "2", "(index + 1) % 3"])
+        inner = ("loop", inner_count, body(rng, 2))
+        lines = body(rng, 1)
+        lines.insert(rng.randrange(len(lines) + 1), inner)
+        if rng.random() < 0.3:
+            lines.append(("loop", rng.choice(["index", "1"]), [rng.choice([".byte index", "nop"]), ("loop", "index + 1", [".byte index"])]))
+        outer_n = rng.randrange(1, 5)
+        p_src = "\n".join(render(str(outer_n), lines)) + "\n.byte $ff\n"
+        x_src = "\n".join(expand_loop(str(outer_n), lines, None)) + "\n.byte $ff\n"
+        acc.evaluations += 1
+        o0 = outcome(probe.ask({"files": {"main.asm": p_src}, "ops": OPS, "opts": {"pc": 0x2000}}))
+        o1 = outcome(probe.ask({"files": {"main.asm": x_src}, "ops": OPS, "opts": {"pc": 0x2000}}))
+        w = {"kinds": ["nested-loop-index"], "P": {"main.asm": p_src}, "expanded": {"main.asm": x_src}, "base_pc": 0x2000}
+        if o1[0] != "ok":
+            acc.inconc("written-out nested loop does not assemble: %r" % (o1[1],))
+            continue
+        if o0[0] != "ok":
+            acc.violation("P-rejected|nested-loop-index", "nested loops are rejected although the body written out assembles: %s" % (o0[1],), w)
+            continue
+        if o0[1] != o1[1]:
+            acc.violation("bytes-differ|nested-loop-index", "nested loops with an index-dependent count assemble to %s, written out to %s" % (
+                "".join(v[1] for v in o0[1].values()), "".join(v[1] for v in o1[1].values())), w)
+            continue
+        acc.count("nested_loops_equal")
+        acc.nontriv("nested-loop", p_src)
+
+
+def transient_import_cases(acc, probe, rng, count):
+    """An imported file whose forward references shrink from absolute to zero-page size between passes, so that a branch in
+    it is out of range in an early pass only: must assemble like the same code in one file."""
+    for _ in range(count):
+        k = rng.randrange(40, 60)
+        lib = "start: {\n    bne done\n" + "".join("    lda zpvar + %d\n" % i for i in range(k)) + "done:\n    rts\n}\n.const zpvar = $%02x\n" % rng.randrange(2, 0x80)
+        how = rng.choice(['.import * from "lib.asm"', '.import start from "lib.asm"', '.import * as l from "lib.asm"'])
+        call = "l.start" if " as l" in how else "start"
+        files = {"main.asm": how + "\n    jsr %s\n" % call, "lib.asm": lib}
+        flat = lib + "    jsr start\n"
+        acc.evaluations += 1
+        o0 = outcome(probe.ask({"files": files, "ops": OPS, "opts": {"pc": 0x2000}}))
+        o1 = outcome(probe.ask({"files": {"main.asm": flat}, "ops": OPS, "opts": {"pc": 0x2000}}))
+        w = {"kinds": ["import-transient-error"], "P": files, "expanded": {"main.asm": flat}, "base_pc": 0x2000}
+        if o1[0] != "ok":
+            acc.count("transient_import.flat_rejected")
+            continue
+        if o0[0] != "ok":
+            acc.violation("P-rejected|import-transient-error", "the importing project is rejected (%s) although the same code in one file assembles" % (o0[1],), w)
+            continue
+        if "".join(v[1] for v in o0[1].values()) != "".join(v[1] for v in o1[1].values()):
+            acc.violation("bytes-differ|import-transient-error", "import and single file assemble differently", w)
+            continue
+        acc.count("transient_imports_equal")
+        acc.nontriv("transient-import", lib, how)
+
+
 def shard(idx, n, seed, tier, params):
     acc = Acc()
     probe = Probe()
@@ -173,6 +259,8 @@ def shard(idx, n, seed, tier, params):
     if idx == 0:
         check_witnesses(acc, probe)
     import_chain_cases(acc, probe, rng, 8 if tier == "quick" else 200)
+    nested_loop_cases(acc, probe, rng, 12 if tier == "quick" else 400)
+    transient_import_cases(acc, probe, rng, 3 if tier == "quick" else 40)
     for i in range(params["programs"] // n):
         if time.time() > t_end:
             acc.count("budget_cut")
